@@ -115,12 +115,22 @@ def check_gbs_history(case):
     taus = hist.tau_points(flow.T, case["cuts"])
     thr = chi / n
     any_mixed = False
+    unobserved = False
     worst = 0.0
     for k, (ta, tb) in enumerate(zip(taus[:-1], taus[1:])):
         A_start = mineral.orientations[-1].copy()
         with hist.GbsRecorder(keep="all") as rec:
             F = hist.update(mineral, params, F, flow, ta, tb)
-        require(len(rec.calls) >= 1, "apply_gbs was never called during the update")
+        if not rec.calls:
+            # The sliding step is not reached through pydrex.utils.apply_gbs (e.g. refactored call
+            # path): the pre-floor state is not observable; only the black-box consequences remain.
+            f_new = mineral.fractions[-1]
+            require(abs(f_new.sum() - 1) <= 1e-12, "stored fractions do not sum to 1")
+            if chi > 0:
+                lo = chi / (n * (1 + chi))
+                require(f_new.min() >= lo * (1 - 1e-9), f"update {k + 1}: stored fraction {f_new.min():.3e} below chi/(n(1+chi))={lo:.3e}")
+            unobserved = True
+            continue
         for c in rec.calls:
             require(c["chi"] == chi and c["n"] == n, f"apply_gbs called with threshold {c['chi']} / n {c['n']} instead of {chi} / {n}")
             require(np.array_equal(c["prev"], A_start), "reference orientations handed to the sliding step are not the snapshot at the start of the update")
@@ -155,7 +165,7 @@ def check_gbs_history(case):
             any_mixed = True
     return {
         "nontrivial": any_mixed,
-        "labels": ["chi0" if chi == 0 else "chi>0", "mixed" if any_mixed else "nomix", gen.FABRICS[ms["pf"]][2]],
+        "labels": ["chi0" if chi == 0 else "chi>0", "mixed" if any_mixed else "nomix", gen.FABRICS[ms["pf"]][2]] + (["sliding_step_unobserved"] if unobserved else []),
         "residual": worst,
     }
 
